@@ -184,16 +184,16 @@ class n0dict__(dict):
         return False
     # **************************************************************************
     def any_valid(self, validate):
-        return self._consists_of(validate, True)
+        return self._valid(validate, True)
     # **************************************************************************
     def any_not_valid(self, validate):
-        return self._consists_of(validate, False)
+        return self._valid(validate, False)
     # **************************************************************************
     def all_valid(self, validate):
-        return not self._consists_of(validate, False)
+        return not self._valid(validate, False)
     # **************************************************************************
     def all_not_valid(self, validate):
-        return not self._consists_of(validate, True)
+        return not self._valid(validate, True)
     # **************************************************************************
     def valid(self, node_xpath: str, validate, expected_result_for_error: bool = False, msg: str = None):
         """
